@@ -4,7 +4,7 @@ spec/Reduce.tla  : L = representer.py (alias bookkeeping, represent_object case 
                    (construct_object cache / recursion guard / generators / deep_construct, python/object, /new, /apply,
                    set_python_instance_state), H = PickleRebuild + the verdicts of spec/H_Reduce.tla.  TLC checks L => H on
                    every abstract object graph of the bounded space (repaired design refines H; the design as the code
-                   has it deviates only through the five named deviations).
+                   has it deviates only through the six named deviations).
 spec -> code     : every complete graph of the TLC run is instantiated from the class family harness/verif_canary17.py,
                    dumped (Dumper, CDumper), loaded (UnsafeLoader, CUnsafeLoader, FullLoader, CFullLoader), rebuilt with
                    pickle protocol 2; all rebuilt graphs are projected to heaps.
@@ -16,17 +16,19 @@ import json, os, pickle, random, re, sys, time, zlib
 from .. import tlc, mbt, tlaval
 from ..common import Verdict, use_repo, SEED, BUILD, ensure_dir
 
-ALL = ['list', 'dict', 'tuple', 'set', 'P', 'S', 'SD', 'GS', 'GT', 'GV', 'NA', 'NT', 'R2', 'R3', 'RL', 'RD', 'CR', 'ML', 'MD',
+ALL = ['list', 'dict', 'tuple', 'set', 'P', 'PA', 'S', 'SD', 'GS', 'GT', 'GV', 'GC', 'GL', 'NA', 'NT', 'R2', 'R3', 'RL', 'RD', 'CR', 'ML', 'MD',
        'MS', 'OD']
 ALLLEAVES = ['i', 'i0', 's', 's0', 'z', 'c', 'n', 'f', 'm', 'e', 'b']
-DEVIATIONS = ['deepreg', 'slotsnone', 'falsystate', 'nonestate', 'emptytuple']
+DEVIATIONS = ['deepreg', 'slotsnone', 'falsystate', 'nonestate', 'emptytuple', 'latefill']
 A7 = ['list', 'P', 'GS', 'R2', 'tuple', 'GV', 'ML']
 B7 = ['dict', 'S', 'SD', 'GT', 'NA', 'RL', 'OD']
-C7 = ['set', 'NT', 'R3', 'RD', 'CR', 'MD', 'MS']
+C7 = ['set', 'NT', 'R3', 'RD', 'CR', 'MD', 'MS', 'GC', 'PA']
 CONFIGS = {
     # quick: every ordered pair of shapes (root with <= 2 kids: sharing; second object with <= 1 kid: back edge),
     # every leaf kind under every shape, chains of three objects with back edges over two 7-shape families
-    'pairs21': dict(MaxObjs=2, Shapes=ALL, Leaves=['i'], KidsRoot=2, KidsRest=1),
+    'pairsAB': dict(MaxObjs=2, Shapes=A7 + B7, Leaves=['i'], KidsRoot=2, KidsRest=1),
+    'pairsC':  dict(MaxObjs=2, Shapes=C7 + ['list', 'GS'], Leaves=['i'], KidsRoot=2, KidsRest=1),
+    'triL':    dict(MaxObjs=3, Shapes=['list', 'GL', 'tuple', 'PA'], Leaves=['i'], KidsRoot=2, KidsRest=1),
     'leaves':  dict(MaxObjs=1, Shapes=ALL, Leaves=['i', 'i0', 's0', 'z', 'c', 'n', 'f', 'm', 'e'], KidsRoot=2, KidsRest=0),
     'chainA':  dict(MaxObjs=3, Shapes=A7, Leaves=['i'], KidsRoot=1, KidsRest=1),
     'chainB':  dict(MaxObjs=3, Shapes=B7, Leaves=['i'], KidsRoot=1, KidsRest=1),
@@ -35,6 +37,7 @@ CONFIGS = {
     'pairs_l': dict(MaxObjs=2, Shapes=ALL, Leaves=['i0', 'z'], KidsRoot=2, KidsRest=1),
     'leaves2': dict(MaxObjs=1, Shapes=ALL, Leaves=ALLLEAVES, KidsRoot=2, KidsRest=0),
     'chainC':  dict(MaxObjs=3, Shapes=C7, Leaves=['i'], KidsRoot=1, KidsRest=1),
+    'triL2':   dict(MaxObjs=3, Shapes=['list', 'GL', 'dict', 'GS'], Leaves=['i'], KidsRoot=2, KidsRest=2),
     'tri_a':   dict(MaxObjs=3, Shapes=['list', 'P', 'GS', 'R2', 'tuple'], Leaves=['i'], KidsRoot=2, KidsRest=1),
     'tri_b':   dict(MaxObjs=3, Shapes=['dict', 'GV', 'ML', 'S', 'NA'], Leaves=['i'], KidsRoot=2, KidsRest=1),
     'tri_c':   dict(MaxObjs=3, Shapes=['list', 'GT', 'SD', 'RL', 'OD'], Leaves=['i'], KidsRoot=2, KidsRest=1),
@@ -45,8 +48,8 @@ CONFIGS = {
     'quad_a':  dict(MaxObjs=4, Shapes=['list', 'P', 'GS', 'R2', 'tuple'], Leaves=['i'], KidsRoot=1, KidsRest=1),
     'quad_b':  dict(MaxObjs=4, Shapes=['dict', 'GV', 'ML', 'SD', 'NA'], Leaves=['i'], KidsRoot=1, KidsRest=1),
 }
-TIERS = {'quick': ['pairs21', 'leaves', 'chainA', 'chainB'],
-         'thorough': ['pairs22', 'pairs_l', 'leaves2', 'chainA', 'chainB', 'chainC', 'tri_a', 'tri_b', 'tri_c', 'tri_d', 'tri_e',
+TIERS = {'quick': ['pairsAB', 'pairsC', 'triL', 'leaves', 'chainA', 'chainB'],
+         'thorough': ['pairs22', 'pairs_l', 'leaves2', 'triL', 'triL2', 'chainA', 'chainB', 'chainC', 'tri_a', 'tri_b', 'tri_c', 'tri_d', 'tri_e',
                       'tri_a2', 'tri_b2', 'quad_a', 'quad_b']}
 RANDOM = {'quick': 600, 'thorough': 12000}
 WORKERS = int(os.environ.get('VERIF_TLC_WORKERS', '16'))
@@ -205,8 +208,9 @@ def judge(records, tag, fixes, batch=4000):
             print(r.out[-3000:])
             raise SystemExit('machinery failure: trace validation run of Trace_Reduce failed')
         states += r.distinct
-        for m in _start.finditer(r.out):
-            v = tlaval.P(r.out[m.start():m.start() + 4000]).value()
+        starts = [m.start() for m in _start.finditer(r.out)]
+        for a, b in zip(starts, starts[1:] + [len(r.out)]):
+            v = tlaval.P(r.out[a:min(b, a + 4000)]).value()
             out[b0 + v[1] - 1].append(v[2:])
         os.remove(path)
     for i, r in enumerate(records):
@@ -246,7 +250,7 @@ def work_random(args):
 # ------------------------------------------------------------------------------------------------ random graphs
 ARGSHAPES = {'tuple', 'NA', 'NT', 'R2', 'R3', 'CR'}
 TWOSEC = {'NA', 'R3', 'RL', 'ML', 'MD', 'MS'}
-AONLY = {'P', 'S', 'SD', 'GS'}
+AONLY = {'P', 'PA', 'S', 'SD', 'GS'}
 
 
 def in_domain(g):
@@ -264,9 +268,22 @@ def in_domain(g):
         return False
     if any(color[i] == 0 and dfs(i) for i in range(n)):
         return False
-    for o in g:
+    for i, o in enumerate(g):
         if o['s'] == 'GV' and o['p'][0]['r'] and g[o['p'][0]['r'] - 1]['s'] in ('dict', 'MD', 'OD'):
             return False
+        if o['s'] == 'GL':
+            t = o['p'][0]['r'] - 1
+            if t < 0 or g[t]['s'] != 'list':
+                return False
+            seen, todo = set(), [t]
+            while todo:
+                x = todo.pop()
+                for v in g[x]['p'] + g[x]['a']:
+                    if v['r'] and v['r'] - 1 not in seen:
+                        seen.add(v['r'] - 1)
+                        todo.append(v['r'] - 1)
+            if i in seen:
+                return False
     return True
 
 
@@ -279,13 +296,20 @@ def random_graph(rnd):
         leafp = rnd.choice([0.2, 0.5])
         shapes = rnd.sample(ALL, rnd.randrange(3, len(ALL) + 1))
         leaves = rnd.sample(ALLLEAVES, rnd.randrange(1, 5))
-        g, hi = [], 1
+        g, hi, forced = [], 1, {}
         while len(g) < hi:
-            s = rnd.choice(shapes)
-            i = len(g) + 1
+            s = forced.get(len(g) + 1) or rnd.choice(shapes)
+            last = len(g) + 1 == hi and hi < target          # the graph would end here: make it grow
+            if last and s in ('set', 'MS', 'GL') and len(g) + 1 not in forced:
+                s = rnd.choice(['list', 'dict', 'P', 'GS', 'ML', 'R2', 'tuple'])
+            force = [last]
 
             def val(leaf_only=False):
                 nonlocal hi
+                if force[0]:
+                    force[0] = False
+                    hi += 1
+                    return {'r': hi, 'l': ''}
                 if leaf_only or rnd.random() < leafp:
                     return {'r': 0, 'l': rnd.choice(leaves)}
                 if hi < target and rnd.random() > back:
@@ -297,17 +321,26 @@ def random_graph(rnd):
                 p = [{'r': 0, 'l': k} for k in ks]
                 a = [val() for _ in range(rnd.randrange(0, 3))] if s == 'MS' else []
             elif s in AONLY:
-                p, a = [], [val() for _ in range(rnd.randrange(0, 4))]
+                p, a = [], [val() for _ in range(rnd.randrange(1 if last else 0, 4))]
             elif s in TWOSEC:
-                p, a = [val() for _ in range(rnd.randrange(0, 4))], [val() for _ in range(rnd.randrange(0, 3))]
+                p, a = [val() for _ in range(rnd.randrange(1 if last else 0, 4))], [val() for _ in range(rnd.randrange(0, 3))]
             elif s == 'GV':
                 p, a = [val()], []
+            elif s == 'GL':                      # its kid is a list: one seen so far, or a new object forced to be one
+                force[0] = False
+                lists = [j + 1 for j, o in enumerate(g) if o['s'] == 'list'] + [j for j, x in forced.items() if x == 'list']
+                if lists and (hi >= target or rnd.random() < 0.6):
+                    p, a = [{'r': rnd.choice(lists), 'l': ''}], []
+                else:
+                    hi += 1
+                    forced[hi] = 'list'
+                    p, a = [{'r': hi, 'l': ''}], []
             elif s == 'NT':
-                p, a = [val() for _ in range(rnd.randrange(0, 3))], []
+                p, a = [val() for _ in range(rnd.randrange(1 if last else 0, 3))], []
             elif s == 'tuple':
                 p, a = [val() for _ in range(rnd.randrange(1, 4))], []
             else:
-                p, a = [val() for _ in range(rnd.randrange(0, 4))], []
+                p, a = [val() for _ in range(rnd.randrange(1 if last else 0, 4))], []
             g.append({'s': s, 'p': p, 'a': a})
         if in_domain(g):
             return g
@@ -320,6 +353,8 @@ PROBES = {  # the smallest graph that separates the code as pinned from the repa
     'falsystate': [{'s': 'GT', 'p': [], 'a': []}],
     'nonestate': [{'s': 'GV', 'p': [{'r': 0, 'l': 'z'}], 'a': []}],
     'emptytuple': [{'s': 'list', 'p': [{'r': 2, 'l': ''}, {'r': 2, 'l': ''}], 'a': []}, {'s': 'NA', 'p': [], 'a': [{'r': 0, 'l': 'i'}]}],
+    'latefill': [{'s': 'list', 'p': [{'r': 2, 'l': ''}, {'r': 3, 'l': ''}], 'a': []}, {'s': 'GL', 'p': [{'r': 3, 'l': ''}], 'a': []},
+                 {'s': 'list', 'p': [{'r': 0, 'l': 'i'}], 'a': []}],
 }
 
 
@@ -400,7 +435,7 @@ def main(tier, replay=None):
         report(v, recs, lines, 'replay', stats)
         v.cov = {'states': js, 'transitions': js, 'traces_validated_against_impl': len(recs), 'replayed': len(recs)}
         return v.finish()
-    per_config = {}
+    per_config, allrecs = {}, []
     for name in TIERS[tier]:
         cfg = CONFIGS[name]
         r = tlc.run('Reduce', cfg='MC_Reduce.cfg', dump=True, tag='C17_' + name, timeout=3000, coverage=False, workers=WORKERS,
@@ -418,16 +453,15 @@ def main(tier, replay=None):
             raise SystemExit('machinery failure: replayed %d states, TLC found %d' % (sum(o['n'] for o in out), r.distinct))
         recs = [x for o in out for x in o['recs']]
         os.remove(r.dump)
-        lines, js = judge(recs, 'C17_j_' + name, fixes)
-        jstates += js
-        if os.environ.get('VERIF_C17_TIMING'):
-            print('timing %s: tlc %.1fs, observe %.1fs, judge %.1fs for %d graphs' % (name, r.wall, t2 - t1, time.time() - t2, len(recs)))
-        report(v, recs, lines, name, stats)
+        for x in recs:
+            x['origin'] = name
+        allrecs += recs
         ngraphs += len(recs)
-        nontriv += sum(1 for x in recs if nontrivial(x))
         per_config[name] = {'bounds': cfg, 'tlc_states': r.distinct, 'graphs': len(recs), 'tlc_wall_s': round(r.wall, 1)}
         samples += [{'g': x['g'], 'doc': x['docs'][0] if x['docs'] else None, 'unsafe': [u['out'] for u in x['unsafe']],
                      'full_accepts': x['full']} for x in recs[len(recs) // 2:len(recs) // 2 + 1]]
+        if os.environ.get('VERIF_C17_TIMING'):
+            print('timing %s: tlc %.1fs, observe %.1fs for %d graphs' % (name, r.wall, t2 - t1, len(recs)))
     # code -> spec: random graphs
     import multiprocessing as mp
     n = RANDOM[tier]
@@ -435,11 +469,18 @@ def main(tier, replay=None):
     with mp.Pool(16) as pool:
         parts = pool.map(work_random, [(a, min(n, a + step), SEED) for a in range(0, n, step)], chunksize=1)
     recs = [x for p in parts for x in p]
-    lines, js = judge(recs, 'C17_j_random', fixes, batch=2000)
-    jstates += js
-    report(v, recs, lines, 'random', stats)
-    nontriv += sum(1 for x in recs if nontrivial(x))
+    for x in recs:
+        x['origin'] = 'random'
     samples += [{'g': x['g'], 'unsafe': [u['out'] for u in x['unsafe']], 'full_accepts': x['full']} for x in recs[:1]]
+    allrecs += recs
+    t3 = time.time()
+    lines, jstates = judge(allrecs, 'C17_judge', fixes, batch=6000)
+    if os.environ.get('VERIF_C17_TIMING'):
+        print('timing judge: %.1fs for %d records' % (time.time() - t3, len(allrecs)))
+    for origin in TIERS[tier] + ['random']:
+        idx = [i for i, x in enumerate(allrecs) if x['origin'] == origin]
+        report(v, [allrecs[i] for i in idx], [lines[i] for i in idx], origin, stats)
+    nontriv = sum(1 for x in allrecs if nontrivial(x))
     v.cov = {'states': states + jstates, 'transitions': trans + jstates, 'design_check_states': states,
              'traces_validated_against_impl': stats['unsafe_obs'] + stats['full_obs'],
              'graphs_from_tlc': ngraphs, 'graphs_random': len(recs), 'max_random_objects': max(len(x['g']) for x in recs),
